@@ -26,6 +26,7 @@ type boundedSpec struct {
 
 var boundedByProp = map[string][]boundedSpec{
 	"C05": {{"c05_bounded_test.go", "TestBoundedC05"}},
+	"C09": {{"c09_bounded_test.go", "TestBoundedC09"}},
 	"C11": {{"c11_bounded_test.go", "TestBoundedC11"}, {"c11path_bounded_test.go", "TestBoundedC11Path"}, {"c11params_bounded_test.go", "TestBoundedC11Params"}},
 	"C13": {{"c13_bounded_test.go", "TestBoundedC13"}},
 	"C14": {{"c14_bounded_test.go", "TestBoundedC14"}},
